@@ -28,6 +28,7 @@ inductive RErr where
   | invalidCompressionType
   | cursor                     -- an `Err(_)` returned by a call on the external cursor
   | decompress                 -- an `Err(_)` returned by the external codec
+  | merge                      -- `Error::Merge(_)`: the user's merge function returned `Err(_)`
   deriving Repr, DecidableEq
 
 /-- How a translated function can fail: a Rust panic, or an `Err` returned through `?` / `return Err`. -/
@@ -304,5 +305,33 @@ abbrev CurRes := Option (Option (List UInt8 × List UInt8))
   match r with
   | some e => pure e
   | none => throw (Fail.err RErr.cursor)
+
+/-- what a user merge function hands back: `Cow::Owned` or `Cow::Borrowed` bytes -/
+inductive Cow where
+  | owned (b : List UInt8)
+  | borrowed (b : List UInt8)
+  deriving Repr, DecidableEq
+
+/-! ### `std::collections::BinaryHeap` by its contract: a bag; `peek`/`pop` deliver an element that no other element
+    exceeds in the order `cmp` (the first such element of the list: which one among equals is unspecified in std,
+    and the heap of the merger never holds two equal elements). -/
+
+/-- index of a greatest element (the earliest one), scanning left to right -/
+def heapMaxIdxM {α : Type} (cmp : α → α → M Ordering) : List α → Nat → Option (Nat × α) → M (Option (Nat × α))
+  | [], _, best => pure best
+  | x :: xs, i, none => heapMaxIdxM cmp xs (i + 1) (some (i, x))
+  | x :: xs, i, some (j, b) => do
+    let o ← cmp b x
+    if o == Ordering.lt then heapMaxIdxM cmp xs (i + 1) (some (i, x)) else heapMaxIdxM cmp xs (i + 1) (some (j, b))
+
+@[inline] def heapPeekM {α : Type} (cmp : α → α → M Ordering) (h : List α) : M (Option α) := do
+  let r ← heapMaxIdxM cmp h 0 none
+  pure (r.map (·.2))
+
+@[inline] def heapPopM {α : Type} (cmp : α → α → M Ordering) (h : List α) : M (Option α × List α) := do
+  let r ← heapMaxIdxM cmp h 0 none
+  match r with
+  | some (i, x) => pure (some x, h.eraseIdx i)
+  | none => pure (none, h)
 
 end Grenad.R
